@@ -485,8 +485,11 @@ def run(ctx):
     # non-gating extra: the model's hand-written bit_reverse_counter equals the generated translation (Gen_brc, C26).
     # Gen_brc.v is regenerated by every run of C26 (possibly from a scratch $VERIF_REPO), so a failure to build here is
     # recorded, not reported: the counter's behaviour is covered by the step correspondence and the monitors above.
-    rc_t, out_t = vcheck.sh(["make", "-j%d" % vcheck.NCPU, "Proofs/MsPqBrcGen.vo"], cwd=vcheck.COQ, timeout=600)
-    tie = {"file": "coq/Proofs/MsPqBrcGen.v", "theorems": ["brc_inc_is_generated", "brc_dec_is_generated"], "built": rc_t == 0}
+    rc_t, out_t = vcheck.sh(["make", "-j%d" % vcheck.NCPU, "Proofs/MsPqBrcGen.vo", "Proofs/MsPqBrcAll.vo"], cwd=vcheck.COQ, timeout=600)
+    tie = {"files": ["coq/Proofs/MsPqBrcGen.v", "coq/Proofs/MsPqBrcAll.v"],
+           "theorems": ["brc_inc_is_generated", "brc_dec_is_generated", "st_closed", "slot_closed", "slot_range_all", "slot_inj_all",
+                        "dec_st_all", "slot_parent_all", "slot_left_all  (counter facts for every count < 2^62 from the C26 closed form)"],
+           "built": rc_t == 0}
     if rc_t != 0:
         tie["error"] = out_t[-400:]
 
